@@ -30,6 +30,7 @@ type c20Scenario struct {
 	clients    int
 	requests   int    // per client
 	mix        string // instant | busy | mixed | hang
+	early      bool   // clients start as soon as the first worker is up (traffic during master start-up)
 	execDelay  int    // ms, via strace execve delay injection
 	workerSlow int    // ms, worker start-up delay
 	kills      int    // external kill -9 of live workers during the run
@@ -50,6 +51,7 @@ type c20Result struct {
 	ok          int
 	failed      int
 	hangs       int
+	garbage     int
 	crossed     []string
 	unexpected  []string
 	logProblems []string
@@ -180,7 +182,7 @@ func runC20Scenario(c *Ctx, bin string, sc c20Scenario, idx int) (res c20Result)
 	deadline := time.Now().Add(40 * time.Second)
 	for time.Now().Before(deadline) {
 		if master = readPid(pidFile); master > 0 {
-			if w, _, _ := childrenOf(master); w >= sc.initP {
+			if w, _, _ := childrenOf(master); w >= sc.initP || (sc.early && w >= 1) {
 				break
 			}
 		}
@@ -200,7 +202,7 @@ func runC20Scenario(c *Ctx, bin string, sc c20Scenario, idx int) (res c20Result)
 		}
 	}
 	defer findPipes()
-	if w, _, _ := childrenOf(master); w < sc.initP {
+	if w, _, _ := childrenOf(master); w < sc.initP && !sc.early {
 		res.err = fmt.Sprintf("master started only %d of %d initial workers within 40s (inconclusive): %s", w, sc.initP, clip(stderr.String(), 300))
 		return
 	}
@@ -272,7 +274,41 @@ func runC20Scenario(c *Ctx, bin string, sc c20Scenario, idx int) (res c20Result)
 						kind = "hang"
 					}
 				}
+				if sc.mix == "garbage" {
+					kind = []string{"instant", "busy", "garbage"}[rng.Intn(3)]
+					if k == 0 && ci%2 == 0 {
+						kind = "garbage"
+					}
+				}
 				tok := fmt.Sprintf("t%d-%d-%d", idx, ci, k)
+				if kind == "garbage" {
+					// a connection that carries no HTTP request: bytes that are not a request line,
+					// a truncated request, or nothing at all. The worker that accepted it gives up
+					// and ends (with status 0 in the real command); the pool must recover.
+					atomic.AddInt64(&outstanding, 1)
+					rec := reqRec{tok: tok, kind: kind, start: time.Now().UnixNano()}
+					if conn, err := net.DialTimeout("tcp", fmt.Sprintf("127.0.0.1:%d", port), 5*time.Second); err == nil {
+						switch rng.Intn(4) {
+						case 0:
+							conn.Write([]byte("\x00\x01\x02 not http\r\n\r\n"))
+						case 1:
+							conn.Write([]byte("GET / HTT"))
+						case 2:
+							conn.Write([]byte("POST\r\n\r\n"))
+						}
+						conn.SetReadDeadline(time.Now().Add(300 * time.Millisecond))
+						io.ReadAll(conn)
+						conn.Close()
+					} else {
+						rec.err = err.Error()
+					}
+					rec.end = time.Now().UnixNano()
+					atomic.AddInt64(&outstanding, -1)
+					cmu.Lock()
+					recs = append(recs, rec)
+					cmu.Unlock()
+					continue
+				}
 				body, _ := json.Marshal(map[string]string{"VarInput": "", "SourceCode": c20Program(kind, tok, rng)})
 				atomic.AddInt64(&outstanding, 1)
 				rec := reqRec{tok: tok, kind: kind, start: time.Now().UnixNano()}
@@ -500,6 +536,8 @@ waitClients:
 			res.logProblems = append(res.logProblems, fmt.Sprintf("request %s was handled %d times", r.tok, n))
 		}
 		switch {
+		case r.kind == "garbage":
+			res.garbage++
 		case r.kind == "hang":
 			res.hangs++
 			if r.err == "" && r.body == r.tok {
@@ -555,7 +593,7 @@ func readPid(path string) int {
 }
 
 func checkC20(c *Ctx) {
-	c.rule = "the real ZnPMServer master and real worker processes (pmharness: pkg/server + playground handler, hook H1) are started per scenario; scenarios = configurations 1 <= init <= max <= 4 x client concurrency 1..16 x request mix (instant, busy loops, one / two / three requests that outlive --timeout at the same moment) x scripted kill -9 of one or several live workers at once x execve delay injected with strace (0/5/20/60/150 ms, widens the window between 'spawned' and 'registered') x slow worker start-up. Monitors: /proc children of the master every 2 ms (live workers <= max at every sample; init <= live <= max at a quiescent point = no request outstanding and live set unchanged for 1.5 s); offline checker over the handler log written at the worker boundary (per-worker request intervals never overlap, every token handled once, response == own token, timed-out worker gone); race-detector reports of a -race build are recorded for information only. distinct_nontrivial = distinct (scenario parameters) + distinct 4-grams over {worker_start, req_start, req_end} events seen"
+	c.rule = "the real ZnPMServer master and real worker processes (pmharness: pkg/server + playground handler, hook H1) are started per scenario; scenarios = configurations 1 <= init <= max <= 4 x client concurrency 1..16 x request mix (instant, busy loops, one / two / three requests that outlive --timeout at the same moment, connections that carry no HTTP request so that the accepting worker ends with status 0) x scripted kill -9 of one or several live workers at once x execve delay injected with strace (0/5/20/60/150 ms, widens the window between 'spawned' and 'registered') x slow worker start-up x traffic that begins while the master is still starting its initial workers. Monitors: /proc children of the master every 2 ms (live workers <= max at every sample; init <= live <= max at a quiescent point = no request outstanding and live set unchanged for 1.5 s); offline checker over the handler log written at the worker boundary (per-worker request intervals never overlap, every token handled once, response == own token, timed-out worker gone); race-detector reports of a -race build are recorded for information only. distinct_nontrivial = distinct (scenario parameters) + distinct 4-grams over {worker_start, req_start, req_end} events seen"
 	c.assumptions = []string{"a child that has been forked but has not exec'd yet is reported separately and not counted as a live worker", "strace execve delay injection only delays, it does not change behaviour", "not reaching a quiescent point within 60 s is inconclusive, not a violation"}
 	if _, err := exec.LookPath("strace"); err != nil {
 		c.Inconclusive("strace not found: " + err.Error())
@@ -570,6 +608,9 @@ func checkC20(c *Ctx) {
 	var scenarios []c20Scenario
 	add := func(s c20Scenario) {
 		s.name = fmt.Sprintf("init%d-max%d-c%dx%d-%s-delay%d-slow%d-kill%dx%d-race%v", s.initP, s.maxP, s.clients, s.requests, s.mix, s.execDelay, s.workerSlow, s.kills, s.killBurst, s.race)
+		if s.early {
+			s.name += "-early"
+		}
 		scenarios = append(scenarios, s)
 	}
 	if c.Quick() {
@@ -590,6 +631,11 @@ func checkC20(c *Ctx) {
 		add(c20Scenario{initP: 2, maxP: 4, timeout: 2, clients: 6, requests: 4, mix: "hang2"})
 		add(c20Scenario{initP: 4, maxP: 4, timeout: 2, clients: 6, requests: 4, mix: "hang3"})
 		add(c20Scenario{initP: 3, maxP: 3, timeout: 2, clients: 6, requests: 8, mix: "busy", kills: 2, killBurst: 2})
+		add(c20Scenario{initP: 2, maxP: 3, timeout: 2, clients: 4, requests: 6, mix: "garbage"})
+		add(c20Scenario{initP: 3, maxP: 3, timeout: 2, clients: 6, requests: 6, mix: "busy", execDelay: 60, early: true})
+		add(c20Scenario{initP: 2, maxP: 4, timeout: 2, clients: 8, requests: 6, mix: "mixed", execDelay: 40, early: true})
+		add(c20Scenario{initP: 4, maxP: 4, timeout: 2, clients: 4, requests: 6, mix: "busy", early: true})
+		add(c20Scenario{initP: 3, maxP: 4, timeout: 2, clients: 6, requests: 5, mix: "garbage", execDelay: 20})
 		add(c20Scenario{initP: 2, maxP: 4, timeout: 2, clients: 8, requests: 8, mix: "mixed", kills: 2, killBurst: 2, execDelay: 40})
 		add(c20Scenario{initP: 2, maxP: 4, timeout: 2, clients: 8, requests: 10, mix: "mixed", kills: 3})
 		add(c20Scenario{initP: 2, maxP: 3, timeout: 2, clients: 8, requests: 8, mix: "busy", workerSlow: 80})
@@ -605,6 +651,9 @@ func checkC20(c *Ctx) {
 				add(c20Scenario{initP: initP, maxP: maxP, timeout: 2, clients: 6, requests: 6, mix: "hang", execDelay: 20})
 				add(c20Scenario{initP: initP, maxP: maxP, timeout: 2, clients: 8, requests: 10, mix: "mixed", kills: 4, execDelay: 20})
 				add(c20Scenario{initP: initP, maxP: maxP, timeout: 2, clients: 6, requests: 4, mix: "hang2"})
+				add(c20Scenario{initP: initP, maxP: maxP, timeout: 2, clients: 5, requests: 6, mix: "garbage"})
+				add(c20Scenario{initP: initP, maxP: maxP, timeout: 2, clients: 6, requests: 6, mix: "busy", execDelay: 60, early: true})
+				add(c20Scenario{initP: initP, maxP: maxP, timeout: 2, clients: 6, requests: 6, mix: "mixed", early: true})
 				add(c20Scenario{initP: initP, maxP: maxP, timeout: 2, clients: 6, requests: 4, mix: "hang3", execDelay: 20})
 				add(c20Scenario{initP: initP, maxP: maxP, timeout: 2, clients: 8, requests: 8, mix: "busy", kills: 3, killBurst: 2})
 				add(c20Scenario{initP: initP, maxP: maxP, timeout: 2, clients: 8, requests: 8, mix: "mixed", kills: 2, killBurst: 3, execDelay: 40})
@@ -684,6 +733,7 @@ func checkC20(c *Ctx) {
 		c.Count("requests_answered_with_own_token", int64(r.ok))
 		c.Count("requests_lost_to_scripted_kills", int64(r.failed))
 		c.Count("requests_outliving_timeout", int64(r.hangs))
+		c.Count("connections_without_http_request", int64(r.garbage))
 		c.Count("ordinary_requests_that_hit_the_server_timeout_not_judged", int64(r.slowVictims))
 		for g := range r.events4 {
 			grams[g] = true
